@@ -36,7 +36,8 @@ struct Value {
     opcodetype opcode{OP_INVALIDOPCODE};
     std::vector<uint8_t> data;
     std::string str;
-    inline static size_t parse_nesting = 0; // current depth of [sub-script] parsing
+    inline static size_t parse_nesting = 0; // current depth of [sub-script] / function(argument) parsing
+    struct NestingGuard { size_t& n; NestingGuard(size_t& n_in) : n(n_in) { ++n; } ~NestingGuard() { --n; } };
     static std::vector<Value> parse_args(const std::vector<const char*> args) {
         std::vector<Value> result;
         std::string accum = "";
@@ -81,7 +82,7 @@ struct Value {
         if (args_len == 0) args_len = strlen(args_string);
         // bracketed sub-scripts are parsed recursively: bound the depth (and keep the frames small: no arrays sized
         // by the input on the stack), so that deeply nested input gets a diagnostic, not a stack overflow
-        struct NestingGuard { size_t& n; NestingGuard(size_t& n_in) : n(n_in) { ++n; } ~NestingGuard() { --n; } } nesting_guard(parse_nesting);
+        NestingGuard nesting_guard(parse_nesting);
         if (parse_nesting > 256) {
             fprintf(stderr, "parse error, [sub-scripts] nested more than 256 levels deep\n");
             exit(1);
@@ -204,9 +205,20 @@ struct Value {
                 fun[i] = 0;
                 size_t funlen = ++i;
                 size_t vallen = vlen - i - 1;
-                char* val = strndup(&v[i], vallen);
-                *this = Value(val, vallen);
-                free(val);
+                // function calls nest (f(g(h(...)))): the same bound as for [sub-scripts] keeps the recursion off the end of the stack
+                NestingGuard nesting_guard(parse_nesting);
+                if (parse_nesting > 256) {
+                    fprintf(stderr, "parse error, expressions nested more than 256 levels deep\n");
+                    exit(1);
+                }
+                std::string val(&v[i], vallen);
+                *this = Value(val.c_str(), vallen);
+                // hex(hex(hex(...))) doubles its argument with every level: bound what a function is applied to
+                const size_t arg_size = type == T_STRING ? str.length() : data.size();
+                if (arg_size > 1000000) {
+                    fprintf(stderr, "parse error, the argument of %s() is too large (%zu bytes; the limit is 1000000)\n", fun, arg_size);
+                    exit(1);
+                }
                 if (!do_exec(fun)) {
                     fprintf(stderr, "unknown function %s: expression left as is\n", fun);
                 } else return;
